@@ -1456,9 +1456,15 @@ _dispatch_queue_adjust_owned(dispatch_queue_class_t dq, uint64_t owned,
 
 	if (unlikely(dq_width > 1)) {
 		if (next_dc && _dispatch_object_is_barrier(next_dc)) {
-			reservation  = DISPATCH_QUEUE_PENDING_BARRIER;
-			reservation += (dq_width - 1) * DISPATCH_QUEUE_WIDTH_INTERVAL;
-			owned -= reservation;
+			// the reservation may already be there: a drainer whose
+			// _dispatch_queue_try_upgrade_full_width() failed left it in
+			// dq_state and can come back here still holding the drain lock
+			uint64_t dq_state = os_atomic_load2o(dq._dq, dq_state, relaxed);
+			if (likely(!_dq_state_has_pending_barrier(dq_state))) {
+				reservation  = DISPATCH_QUEUE_PENDING_BARRIER;
+				reservation += (dq_width - 1) * DISPATCH_QUEUE_WIDTH_INTERVAL;
+				owned -= reservation;
+			}
 		}
 	}
 	return owned;
